@@ -196,8 +196,10 @@ func (c *Check) timerDiscipline(rule string) {
 		pos      string
 	}
 	var ts []trans
-	var collect func(from string, fn *ssa.Function, base map[string]bool, depth int)
-	collect = func(from string, fn *ssa.Function, base map[string]bool, depth int) {
+	// filter: the values of the state result the caller's path admits (a
+	// wrapper that tests the closure's result refines it per return)
+	var collect func(from string, fn *ssa.Function, base map[string]bool, depth int, filter ISet)
+	collect = func(from string, fn *ssa.Function, base map[string]bool, depth int, filter ISet) {
 		a := NewAnalysis(p, fn)
 		a.NoInline = map[string]bool{"fsm.sendOpenAndSetHoldTimer": true}
 		a.Run()
@@ -207,27 +209,30 @@ func (c *Check) timerDiscipline(rule string) {
 				got[k] = true
 			}
 			e := r.Results[0]
-			if v, ok := r.State.rangeOf(e).IsConst(); ok {
-				ts = append(ts, trans{from, v, got, p.InstrPos(r.Instr)})
-				continue
-			}
+			// a result produced by a state closure: what was assigned is
+			// decided inside the closure, per return of the closure
 			callee := e
 			if e.Op == "ex" {
 				callee = e.Args[0]
 			}
 			if callee.Op == "rcall" && depth < 2 {
-				n := strings.TrimPrefix(callee.S, "closure:")
-				if g, ok := p.Funcs[n]; ok {
-					collect(from, g, got, depth+1)
+				if g, ok := p.Funcs[strings.TrimPrefix(callee.S, "closure:")]; ok {
+					collect(from, g, got, depth+1, r.State.rangeOf(e).Intersect(filter))
 					continue
 				}
+			}
+			if v, ok := r.State.rangeOf(e).IsConst(); ok {
+				if filter.Contains(v) {
+					ts = append(ts, trans{from, v, got, p.InstrPos(r.Instr)})
+				}
+				continue
 			}
 			c.undecided(rule, from, "next state", p.InstrPos(r.Instr), "next state is not a constant: "+trunc(e.Key, 60))
 		}
 	}
 	for _, fnn := range names {
 		if fn := p.Fn(fnn); fn != nil {
-			collect(fnn, fn, map[string]bool{}, 0)
+			collect(fnn, fn, map[string]bool{}, 0, isTop())
 		}
 	}
 	// invariant: fields guaranteed on entry to each state
@@ -369,30 +374,35 @@ func (c *Check) activeEntryGuard(rule string) bool {
 			}
 		}
 	}
-	// (a) the store of newStateTransition(disabled, active) is on the conn != nil branch
-	okA := false
+	// (a) with conn == nil the initial transition built before the main loop
+	// never targets active (decided on the values, whatever the control shape)
 	active := p.MustConst("activeState")
-	allInstrs(run, func(in ssa.Instruction) {
-		cl, ok := in.(*ssa.Call)
-		if !ok || p.calleeDesc(cl) != "newStateTransition" {
-			return
+	a := NewAnalysis(p, run)
+	a.AtomHook = func(e *Expr) (ISet, bool) {
+		if e.Op == "nn" && isLoadOfField(e.Args[0], "conn") {
+			return isConst(0), true
 		}
-		if cst, ok := cl.Call.Args[1].(*ssa.Const); ok && cst.Value != nil && cst.Int64() == active {
-			// dominated by the true edge of f.conn != nil
-			b := cl.Block()
-			if len(b.Preds) == 1 {
-				if iff, ok := b.Preds[0].Instrs[len(b.Preds[0].Instrs)-1].(*ssa.If); ok && b.Preds[0].Succs[0] == b {
-					if bo, ok := iff.Cond.(*ssa.BinOp); ok && bo.Op.String() == "!=" {
-						if ld, ok := bo.X.(*ssa.UnOp); ok {
-							if fa, ok := ld.X.(*ssa.FieldAddr); ok && structFieldName(fa) == "conn" {
-								okA = true
-							}
-						}
-					}
-				}
+		return nil, false
+	}
+	a.Run()
+	okA := len(a.Undecided) == 0
+	sites := 0
+	for _, cl := range p.callsIn(run, descIs("newStateTransition")) {
+		in := cl.(ssa.Instruction)
+		if inLoop(in.Block()) {
+			continue
+		}
+		for _, st := range a.At[in] {
+			sites++
+			args := a.argExprs(st, nil, cl.Common())
+			if len(args) != 2 || st.rangeOf(args[1]).Contains(active) {
+				okA = false
 			}
 		}
-	})
+	}
+	if sites == 0 {
+		okA = false
+	}
 	c.require(okA && okB, rule, "fsm.active", "initial entry guarded by conn", p.Pos(act.Pos()),
 		"an FSM created with a connection enters active() only with conn != nil, and active() touches the connect-retry timer only on the conn == nil branch")
 	return okA && okB
